@@ -114,6 +114,9 @@ type Obligation struct {
 	TimeMS  int64
 	Model   string
 	Second  string // agreeing second solver (thorough)
+	// replay of counterexamples (replay.go)
+	RI        *ReplayInfo
+	ClauseAST ast.Expr
 }
 
 // Decls is the per-function declaration table.
@@ -181,6 +184,7 @@ type pkgRef struct {
 
 // Ctx is the verification context of one function under contract.
 type Ctx struct {
+	replayInfo   *ReplayInfo
 	tolerant     bool
 	clauseBroken string
 	staleClauses []string // loop clauses that did not apply to the code
@@ -290,7 +294,7 @@ func (c *Ctx) addObl(st *State, name, kind, goal, where, clause string, props []
 		name = fmt.Sprintf("%s~%d", name, n)
 	}
 	o := &Obligation{Name: c.fi.Key + "/" + name, Kind: kind, Func: c.fi.Key, Assume: c.visible(untag(st.pc)), Goal: goal,
-		Decls: c.decls, Where: where, Clause: clause, Props: props}
+		Decls: c.decls, Where: where, Clause: clause, Props: props, RI: c.replayInfo}
 	if props == nil {
 		o.Props = c.props
 	}
